@@ -258,6 +258,17 @@ Definition msg_step (s : list N) (o : mop) : list N * mout :=
   | MDeliver => (s, MList s)
   end.
 
+(* websocket connection pool of one agent (pkg/didcomm/transport/ws connPool): verification key -> connection; the
+   harness stores one (unused) connection object, so a fetch tells presence *)
+Inductive wop := WAdd (k : N) | WRemove (k : N) | WFetch (k : N).
+Inductive wout := WOk | WPresent (b : bool).
+Definition pool_step (s : list N) (o : wop) : list N * wout :=
+  match o with
+  | WAdd k => (k :: filter (fun x => negb (N.eqb x k)) s, WOk)
+  | WRemove k => (filter (fun x => negb (N.eqb x k)) s, WOk)
+  | WFetch k => (s, WPresent (existsb (N.eqb k) s))
+  end.
+
 (* mediator inbox (message pickup): add, status, pickup n — per recipient; fault-free part of C15's model *)
 Inductive iop := IAdd (d m : N) | IStatus (d : N) | IPickup (d : N) (n : nat)
   | IPickupFail (d : N) (n : nat).   (* batch pickup whose outbound send fails: the batch is shown to the dispatcher, the inbox keeps it *)
